@@ -23,7 +23,11 @@ The system object must provide
 and may provide
     within_bounds(world)     -> False to discard a successor that exceeds the pool bound
     nontrivial(pre, op, post, obs) -> bool, counts towards distinct_nontrivial
-    copy(world)              -> an independent copy (default copy.deepcopy)
+    rebuild = False          -> successors are made by deep-copying the pre-state instead of replaying
+                                the history from scratch (the default is to replay: deepcopy goes
+                                through __reduce_ex__/__getstate__ and loses identity with class-level
+                                objects, so it is not trusted unless a system opts in)
+    copy(world)              -> an independent copy (default copy.deepcopy), used when rebuild is False
     init_check(world)        -> violations in the initial state
 """
 
@@ -48,6 +52,10 @@ _SEED = 0
 
 
 def build(system, hist):
+    # class-level library state is reset first: a world replayed from its history must not depend on
+    # what ran before in this process (the objects of any world built earlier stay usable for
+    # observation; only their cache-statistics registration is forgotten)
+    _new_item()
     w = system.initial()
     for op in hist:
         r = system.apply(w, op)
@@ -72,7 +80,7 @@ def _expand_chunk(entries):
     nontrivial = getattr(system, "nontrivial", None)
     within = getattr(system, "within_bounds", None)
     prune = getattr(system, "prune", None)
-    rebuild = getattr(system, "rebuild", False)
+    rebuild = getattr(system, "rebuild", True)
     state_check = getattr(system, "state_check", None)
     npruned = 0
     for hist, dg in entries:
@@ -89,6 +97,7 @@ def _expand_chunk(entries):
             # (the parent has deduplicated it globally by then)
             pre = build(system, hist[:-1])
             w0 = build(system, hist)
+            system.current_history = hist         # lets the check re-build further independent copies
             bad = state_check(pre, hist[-1], w0, None)
             if bad:
                 for fp, detail in bad:
@@ -132,6 +141,8 @@ def _expand_chunk(entries):
             d = _digest(system, w)
             if d != dg and d not in succ:
                 succ[d] = hist + (op,)
+    if rebuild:
+        nvalid += ntrans          # every transition was executed on a world replayed from scratch
     return succ, viols, ntrans, nvalid, nnontriv, outcomes, npruned
 
 
